@@ -1,8 +1,169 @@
 package checks
 
-import "github.com/emersion/go-webdav/verifmc/engine"
+import (
+	"encoding/json"
+	"fmt"
+	"os"
+	"strings"
+	"syscall"
 
-// c17Faults: OS-failure enumeration (implemented through a build overlay; see osfault.go).
+	"github.com/emersion/go-webdav/verifmc/engine"
+	"github.com/emersion/go-webdav/verifmc/harness"
+	"github.com/emersion/go-webdav/verifmc/vos"
+)
+
+// C17 part 3 — OS-failure enumeration. Only effective in the binary built with the overlay that
+// routes fs_local.go's os.* calls through package vos (bin/check builds it for C17).
+
+var c17Errnos = []syscall.Errno{syscall.ENOENT, syscall.EEXIST, syscall.EISDIR, syscall.ENOTDIR, syscall.EACCES, syscall.EXDEV, syscall.ENOSPC, syscall.EIO}
+
+var errnoName = map[syscall.Errno]string{syscall.ENOENT: "ENOENT", syscall.EEXIST: "EEXIST", syscall.EISDIR: "EISDIR", syscall.ENOTDIR: "ENOTDIR", syscall.EACCES: "EACCES", syscall.EXDEV: "EXDEV", syscall.ENOSPC: "ENOSPC", syscall.EIO: "EIO"}
+
+type c17FaultCase struct {
+	State   harness.Tree `json:"state"`
+	Req     harness.Req  `json:"request"`
+	FailAt  int          `json:"fail_at"`
+	FailAt2 int          `json:"fail_at_2"`
+	Errno   int          `json:"errno"`
+}
+
+func c17FaultStates() []harness.Tree {
+	return []harness.Tree{
+		{"/": {Dir: true}},
+		{"/": {Dir: true}, "/a": {Dir: true}, "/a/a": {Dir: true}, "/a/a/a": {Content: "x"}, "/a/b.html": {Content: "x"}, "/b.html": {Content: "yy"}},
+		{"/": {Dir: true}, "/a": {Content: "x"}, "/b.html": {Dir: true}, "/b.html/a": {Content: "yy"}},
+		{"/": {Dir: true}, "/a": {Dir: true}, "/b.html": {Content: "x"}},
+	}
+}
+
+func c17FaultRequests() []harness.Req {
+	var out []harness.Req
+	paths := []string{"/a", "/b.html", "/a/b.html", "/a/a", "/missing", "/b.html/a"}
+	for _, p := range paths {
+		for _, m := range []string{"OPTIONS", "GET", "HEAD", "DELETE", "MKCOL"} {
+			out = append(out, harness.Req{Method: m, Path: p})
+		}
+		out = append(out, harness.Req{Method: "PUT", Path: p, Body: "new-content"})
+		out = append(out, harness.Req{Method: "PROPFIND", Path: p, Header: map[string]string{"Depth": "infinity"}})
+		out = append(out, harness.Req{Method: "PROPFIND", Path: p, Header: map[string]string{"Depth": "0"}})
+		for _, q := range paths {
+			for _, m := range []string{"COPY", "MOVE"} {
+				for _, ow := range []string{"T", "F"} {
+					out = append(out, harness.Req{Method: m, Path: p, Header: map[string]string{"Destination": q, "Overwrite": ow}})
+				}
+			}
+		}
+	}
+	return out
+}
+
+func overlayActive() bool {
+	w := newFSWorker()
+	defer w.close()
+	before := vos.Hits
+	w.load(harness.Tree{"/": {Dir: true}, "/f": {Content: "x"}})
+	harness.Serve(w.handler, harness.Req{Method: "GET", Path: "/f"})
+	return vos.Hits > before
+}
+
+// c17RunFault executes one (state, request, fault) and returns the response and what failed.
+func c17RunFault(w *fsWorker, q harness.Req, failAt, failAt2 int, errno syscall.Errno) (harness.Resp, *vos.Plan) {
+	p := &vos.Plan{Root: w.root, FailAt: failAt, FailAt2: failAt2, Errno: errno}
+	vos.Install(p)
+	resp, _, _ := w.step(q)
+	vos.Remove(w.root)
+	return resp, p
+}
+
+func c17FaultsRun(r *engine.Run, quick bool) {
+	if !overlayActive() {
+		if os.Getenv("VERIF_REQUIRE_OVERLAY") != "" {
+			fmt.Fprintln(os.Stderr, "C17: the OS-fault overlay is not active in this binary (tool error)")
+			os.Exit(2)
+		}
+		r.Extra["os_fault_part"] = "skipped: this binary was built without the vos overlay"
+		return
+	}
+	states, reqs := c17FaultStates(), c17FaultRequests()
+	r.Extra["os_fault_states"] = len(states)
+	r.Extra["os_fault_requests"] = len(reqs)
+	workers := make(chan *fsWorker, 64)
+	r.Parallel(len(states)*len(reqs), func(i int, s *engine.Shard) {
+		si, ri := i/len(reqs), i%len(reqs)
+		var w *fsWorker
+		select {
+		case w = <-workers:
+		default:
+			w = newFSWorker()
+		}
+		defer func() { workers <- w }()
+		w.load(states[si])
+		q := reqs[ri]
+		_, plan := c17RunFault(w, q, -1, -1, 0)
+		n := plan.Calls()
+		s.Add("os calls counted", int64(n))
+		type fp struct{ k1, k2 int }
+		var faults []fp
+		for k := 0; k < n; k++ {
+			faults = append(faults, fp{k, -1})
+		}
+		if !quick && (q.Method == "COPY" || q.Method == "MOVE") {
+			for k1 := 0; k1 < n; k1++ {
+				for k2 := k1 + 1; k2 < n+2; k2++ {
+					faults = append(faults, fp{k1, k2})
+				}
+			}
+		}
+		for _, f := range faults {
+			for _, e := range c17Errnos {
+				resp, p := c17RunFault(w, q, f.k1, f.k2, e)
+				s.Transition()
+				s.Count("os-fault executions")
+				s.Clause("injected OS failure: response must not contain the host path")
+				failed := strings.Join(p.Failed, "+")
+				s.Outcome(fmt.Sprintf("osfault/%s/%s/%d", q.Method, failed, resp.Status))
+				s.Nontrivial(fmt.Sprintf("F/%d/%d/%d/%d/%d", si, ri, f.k1, f.k2, e))
+				if i%97 == 5 && f.k1 == 1 && e == syscall.EXDEV {
+					s.Sample(map[string]interface{}{"state": states[si].Canon(), "request": q.String(), "failed_os_call": failed, "errno": errnoName[e], "status": resp.Status, "body": trunc(string(resp.Body), 100)})
+				}
+				if resp.Panic != "" {
+					s.Violate(engine.Violation{Sig: fmt.Sprintf("C17/panic-osfault/%s/%s.%s", q.Method, failed, errnoName[e]), Clause: "panic", Index: 1<<55 + int64(i)<<16 + int64(f.k1)<<8 + int64(e), Kind: "C17-fault",
+						Case: c17FaultCase{states[si], q, f.k1, f.k2, int(e)}, Expected: "no panic", Observed: resp.Panic})
+					continue
+				}
+				if l := leakIn(resp, w.root, w.rootReal); l != "" {
+					s.Violate(engine.Violation{Sig: fmt.Sprintf("C17/leak-osfault/%s/%s.%s/status=%d", q.Method, failed, errnoName[e], resp.Status), Clause: "leak", Index: 1<<55 + int64(i)<<16 + int64(f.k1)<<8 + int64(e), Kind: "C17-fault",
+						Case: c17FaultCase{states[si], q, f.k1, f.k2, int(e)}, Expected: "no host path in the response", Observed: fmt.Sprintf("status %d: %s; body=%q", resp.Status, l, trunc(string(resp.Body), 200))})
+				}
+			}
+		}
+	})
+	close(workers)
+	for w := range workers {
+		w.close()
+	}
+}
+
+func init() {
+	c17FaultsImpl = c17FaultsRun
+	registerReplay("C17-fault", func(raw json.RawMessage) (bool, string) {
+		var c c17FaultCase
+		if err := json.Unmarshal(raw, &c); err != nil {
+			return false, err.Error()
+		}
+		if !overlayActive() {
+			return false, "this binary was built without the vos overlay: use bin/replay (it picks the overlay binary for C17)"
+		}
+		defer harness.Cleanup()
+		w := newFSWorker()
+		defer w.close()
+		w.load(c.State)
+		resp, p := c17RunFault(w, c.Req, c.FailAt, c.FailAt2, syscall.Errno(c.Errno))
+		l := leakIn(resp, w.root, w.rootReal)
+		return l == "" && resp.Panic == "", fmt.Sprintf("failed os call %v; status %d %s body=%q", p.Failed, resp.Status, l, trunc(string(resp.Body), 200))
+	})
+}
+
 var c17FaultsImpl func(r *engine.Run, quick bool)
 
 func c17Faults(r *engine.Run, quick bool) {
